@@ -264,3 +264,74 @@ func (s *Solver) GetValues(terms []string) (map[string]string, error) {
 type engineError struct{ msg string }
 
 func (e engineError) Error() string { return e.msg }
+
+// RetryElsewhere replays the whole current context in a fresh process of another solver and
+// checks it once (used when the primary solver answers unknown on a property obligation).
+func (s *Solver) RetryElsewhere(bin string, nondets []NondetVar) (string, map[string]string) {
+	alt, err := NewSolver(bin, 3*s.TimeoutMs)
+	if err != nil {
+		return "unknown", nil
+	}
+	defer alt.Close()
+	for _, l := range s.scopeLog {
+		if strings.HasPrefix(l, "(push") || strings.HasPrefix(l, "(pop") {
+			alt.raw(l)
+			continue
+		}
+		alt.raw(l)
+	}
+	func() {
+		defer func() { recover() }()
+	}()
+	var r string
+	func() {
+		defer func() {
+			if e := recover(); e != nil {
+				r = "unknown"
+			}
+		}()
+		r = alt.Check()
+	}()
+	var model map[string]string
+	if r == "sat" {
+		terms := make([]string, 0, len(nondets))
+		for _, n := range nondets {
+			terms = append(terms, n.Term)
+		}
+		vals, _ := alt.GetValues(terms)
+		model = map[string]string{}
+		for _, n := range nondets {
+			if v, ok := vals[n.Term]; ok {
+				model[n.Name] = v
+			}
+		}
+	}
+	return r, model
+}
+
+// CheckTactic runs (check-sat-using tactic) in the current context; errors count as unknown.
+func (s *Solver) CheckTactic(tactic string) string {
+	if s.Bin == "cvc5" {
+		return "unknown"
+	}
+	t0 := time.Now()
+	s.raw("(check-sat-using " + tactic + ")")
+	resp, ok := s.readResp(time.Duration(s.TimeoutMs)*3*time.Millisecond + 8*time.Second)
+	s.Stats.Nanos += int64(time.Since(t0))
+	s.Stats.Queries++
+	if !ok {
+		s.restart()
+		s.Stats.Unknown++
+		return "unknown"
+	}
+	switch resp {
+	case "sat":
+		s.Stats.Sat++
+		return "sat"
+	case "unsat":
+		s.Stats.Unsat++
+		return "unsat"
+	}
+	s.Stats.Unknown++
+	return "unknown"
+}
